@@ -96,6 +96,44 @@ def r2_burn_in(ctx, rid="C17.R2", title="histories appended only after burn-in, 
                           "so the samples averaged for one subject depend on the other subjects' chains")
         else:
             ctx.check(ok, rid, g, c, "kept only when not in burn-in", f"`{U(c)[:60]}` also records burn-in iterations: the returned mean / best draw includes samples taken before convergence")
+    # the histories are the draws of THIS run: the containers appended to are created empty inside the function (an attribute of the algorithm
+    # object, a module-level list ... would still hold the draws of the previous run of the same object)
+    from ..astq import local_defs
+    defs_ = local_defs(g.node)
+
+    def fresh(e):
+        if isinstance(e, (ast.List, ast.Dict)) and not (getattr(e, "elts", None) or getattr(e, "keys", None)):
+            return True
+        if isinstance(e, ast.DictComp):
+            return fresh(e.value)
+        if isinstance(e, ast.ListComp):
+            return fresh(e.elt)
+        if isinstance(e, ast.Call) and U(e.func) in ("list", "dict", "defaultdict", "collections.defaultdict") and all(U(a) in ("list", "dict") for a in e.args) and not e.keywords:
+            return True
+        return False
+    seen_roots = set()
+    for n, c in apps:
+        recv = c.func.value
+        root = recv
+        while isinstance(root, (ast.Subscript, ast.Attribute)):
+            root = root.value
+        rn = root.id if isinstance(root, ast.Name) else None
+        if rn is None or rn in seen_roots:
+            continue
+        seen_roots.add(rn)
+        if rn in ("self", "cls"):
+            ctx.violation(rid, g, c, f"`{U(recv)[:50]}` lives on the algorithm object: the draws of an earlier run of the same object are still in it, and are averaged / compared with the new ones",
+                          construct=f"history container {rn}")
+            continue
+        ds = defs_.get(rn, [])
+        stale = [d for d in ds if d is not None and not fresh(d)]
+        if ds and not stale:
+            ctx.ok(rid, g, c, f"`{rn}` is created empty in this function", construct=f"history container {rn}")
+        elif stale and any(isinstance(x, ast.Attribute) and isinstance(x.value, ast.Name) and x.value.id in ("self", "cls") for d in stale for x in ast.walk(d)):
+            ctx.violation(rid, g, c, f"the history `{rn}` is `{U(stale[0])[:50]}`, an attribute of the algorithm object that is not emptied here: a second run of the same object returns the mean / "
+                          "best draw over the samples of both runs", construct=f"history container {rn}")
+        else:
+            ctx.unknown(rid, g, c, f"cannot tell whether the history `{rn}` (`{U(stale[0])[:50] if stale else 'parameter'}`) is empty at the beginning of a run", construct=f"history container {rn}")
     # ... and "burn-in" means the configured number of iterations, nothing else: the kept draws are those of iterations n_burn_in_iter+1 .. n_iter
     from ..astq import canon_lines
     bi = ctx.ix.func("leaspy.algo.algo_with_samplers", "AlgorithmWithSamplersMixin._is_burn_in", rid)
